@@ -11,7 +11,7 @@
 (***************************************************************************)
 EXTENDS Integers, Sequences, FiniteSets, TLC, Json, ChainData
 \* ChainData: Chains == << [kind, fault, at, completed, escaped, iters |-> << [errs, conv, nonrev, div, accfinite, acczero,
-\*                                                                            finite, valid, moved, faulted] >>] >>
+\*                                                                            finite, valid, moved, faulted, postfault, intraj, hfault] >>, dynamic] >>
 
 VARIABLES q, i
 Init == q \in 1..Len(Chains) /\ i = 0
@@ -38,6 +38,16 @@ FailureIsRejection == i > 0 => (It.accfinite /\ ((It.conv \/ It.nonrev \/ It.div
 
 \* an iteration in which nothing went wrong records no failure
 NoSpuriousFlags == (i > 0 /\ ~It.faulted /\ It.errs = {}) => (~It.conv /\ ~It.nonrev)
+
+\* hfault: the energy of a candidate of the trajectory (evaluated by the transition after at least one integrator
+\* step) came out NaN / +inf.  The new chain state is then the old one or a candidate the transition had finished
+\* with BEFORE that evaluation (a "previously valid candidate"), never the faulty candidate or a later one ...
+NoPostFaultCandidate ==
+  (i > 0 /\ It.hfault /\ C.fault \in {"nan", "inf"}) => ~It.postfault
+
+\* ... and a dynamic transition records the event as a divergence
+DivergenceRecorded ==
+  (i > 0 /\ C.dynamic /\ It.hfault /\ C.fault \in {"nan", "inf"}) => It.div
 
 Verdict ==
   (i = Len(C.iters)) =>
